@@ -297,6 +297,22 @@ template <class Bn> struct C11 {
       expect(vf::norm_dev(r) < Bars::eps_lib, "random_bundle_is_valid", "Random");
     }
     {
+      // the same for the tangent bundle: Tangent::Random() is the concatenation of the elements' Tangent::Random() draws
+      // (seed C11c replaced it by a coefficient-wise uniform draw, which never samples rotation angles beyond 1 rad)
+      srand(23); T r = T::Random();
+      typename T::DataType e1, e2;
+      srand(23);
+      auto f = [&](auto ic) { constexpr int I = decltype(ic)::value; e1.template segment<El<I>::DoF>(self->g.offDoF[I]) = ElT<I>::Random().coeffs(); };
+      each<0>(f);
+      srand(23);
+      auto fr = [&](auto ic) { constexpr int I = NB - 1 - decltype(ic)::value; e2.template segment<El<I>::DoF>(self->g.offDoF[I]) = ElT<I>::Random().coeffs(); };
+      each<0>(fr);
+      if (vf::bits_equal(r.coeffs(), e2)) same("Tangent::Random", r.coeffs(), e2); else same("Tangent::Random", r.coeffs(), e1);
+      srand(29); T q; q.setRandom();
+      srand(29); T q2 = T::Random();
+      same("Tangent::setRandom", q.coeffs(), q2.coeffs());
+    }
+    {
       Bn id = Bn::Identity(); typename Bn::DataType e;
       auto f = [&](auto ic) { constexpr int I = decltype(ic)::value; e.template segment<El<I>::RepSize>(self->g.offRep[I]) = El<I>::Identity().coeffs(); };
       each<0>(f);
